@@ -178,6 +178,7 @@ let case_retry k args lines =
        let last_srv = ref (-1) in
        let last_opt = ref false in
        let ncb = ref 0 in
+       let seen_end = ref false in   (* callbacks after END come from ares_destroy *)
        let ntx = ref 0 in
        let base = match metrics_server_timeout timeout maxt { tv_sec = zi 1000; tv_usec = Z0 } metrics_init with Ok b -> b | _ -> Z0 in
        let flush_all () =
@@ -193,6 +194,38 @@ let case_retry k args lines =
           (e.g. the copies of a reply that follow the one which completed the query) *)
        let deferred = ref [] in
        let drain () = let d = List.rev !deferred in deferred := []; List.iter (fun f -> f ()) d in
+       let handle_batch letters tcp =
+         let mk ?(drop = false) ?(bad = false) ?(formerr = false) ?(opt = !last_opt) ?(tc = false) ?err () =
+           { r_drop = drop; r_cookie_bad = bad; r_formerr = formerr; r_has_opt = opt; r_tc = tc; r_err = err } in
+         (* the driver's replies copy the query's additional section (OPT and cookie) unless stated *)
+         let rk kind = match kind with
+           | "a" | "x" -> Some (mk ())
+           | "s" -> Some (mk ~err:aRES_ESERVFAIL ()) | "n" -> Some (mk ~err:aRES_ENOTIMP ()) | "r" -> Some (mk ~err:aRES_EREFUSED ())
+           | "c" -> Some (mk ~tc:true ())
+           | "f" -> Some (mk ~formerr:true ~opt:false ())
+           | "F" -> Some (mk ~formerr:true ())
+           | "b" -> Some (if !last_opt then mk ~bad:true () else mk ())   (* without OPT the extended rcode cannot be encoded *)
+           | "g" | "G" -> None                                          (* does not parse *)
+           | _ -> Some (mk ~drop:true ()) in
+         if tcp <> "-1" then begin
+           let srv = !s_now in
+           (* the walk of read_answers: stops at the first message that does not parse (the
+              connection is closed, what is still outstanding on it is re-queued), then the flush *)
+           let rec thunks = function
+             | [] -> [flush_all]
+             | k :: rest ->
+               Hashtbl.replace feats ("reply-" ^ k) ();
+               (match rk k with
+                | Some r -> (fun () -> push_in (IReply (srv, tcp = "1", true, r))) :: thunks rest
+                | None ->
+                  Hashtbl.replace feats "malformed" ();
+                  [(fun () -> if (!q).q_conn <> None && (!q).q_ended = None then push_in (IConnClosed (srv, aRES_EBADRESP))); flush_all]) in
+           let rec run_seq = function
+             | [] -> ()
+             | f :: r -> f (); if !pending_out = [] then run_seq r else deferred := (fun () -> run_seq r) :: !deferred in
+           run_seq (thunks letters)
+         end
+       in
        List.iter (fun l ->
          (match words l with "CB" :: _ -> () | _ -> drain ());
          match words l with
@@ -246,27 +279,13 @@ let case_retry k args lines =
            push_in (ITimeout !s_now)
          | ["E"; "reply"; kind; copies; tcp] ->
            last_tx := None;
-           Hashtbl.replace feats ("reply-" ^ kind) ();
-           if int_of_string copies > 1 then Hashtbl.replace feats "dup" ();
-           let mk ?(drop = false) ?(bad = false) ?(formerr = false) ?(opt = !last_opt) ?(tc = false) ?err () =
-             { r_drop = drop; r_cookie_bad = bad; r_formerr = formerr; r_has_opt = opt; r_tc = tc; r_err = err } in
-           (* the driver's replies copy the query's additional section (OPT and cookie) unless stated *)
-           let rk = match kind with
-             | "a" | "x" -> mk ()
-             | "s" -> mk ~err:aRES_ESERVFAIL () | "n" -> mk ~err:aRES_ENOTIMP () | "r" -> mk ~err:aRES_EREFUSED ()
-             | "c" -> mk ~tc:true ()
-             | "f" -> mk ~formerr:true ~opt:false ()
-             | "F" -> mk ~formerr:true ()
-             | "b" -> if !last_opt then mk ~bad:true () else mk ()   (* without OPT the extended rcode cannot be encoded *)
-             | _ -> mk ~drop:true () in
-           if tcp <> "-1" then begin
-             let srv = !s_now in
-             let one () = push_in (IReply (srv, tcp = "1", true, rk)) in
-             let n = int_of_string copies in
-             one ();
-             let rest () = for _ = 2 to n do one () done; flush_all () in
-             if !pending_out = [] then rest () else deferred := rest :: !deferred
-           end
+           let n = max 1 (int_of_string copies) in
+           if n > 1 then Hashtbl.replace feats "dup" ();
+           handle_batch (List.init n (fun _ -> kind)) tcp
+         | ["E"; "batch"; kinds; tcp] ->
+           last_tx := None;
+           Hashtbl.replace feats "batch" ();
+           handle_batch (List.init (String.length kinds) (fun i -> String.make 1 kinds.[i])) tcp
          | ["E"; "connerr"; tcp] ->
            last_tx := None;
            Hashtbl.replace feats "connerr" ();
@@ -279,7 +298,8 @@ let case_retry k args lines =
            s_now := n';
            if removed_current then push_in (IConnClosed (n', aRES_SUCCESS))
          | ["E"; "openfail"; _] | ["E"; "sendfail"; _] -> ()
-         | "CB" :: st :: _ when not (List.mem "CLOCKRANGE" lines && zd st = zi 16) ->
+         | "END" :: _ -> seen_end := true
+         | "CB" :: st :: _ when not !seen_end && not (List.mem "CLOCKRANGE" lines && zd st = zi 16) ->
            incr ncb;
            if (!q).q_queued <> O && not (!q).q_sending && (!q).q_ended = None then flush_all ();
            expect_out (ODone (zd st));
@@ -295,8 +315,8 @@ let case_retry k args lines =
        if zlt b (transmissions tr) then fail k "transmissions-exceed-bound" "transmissions=%s bound=%s (servers<=%s tries=%s)" (dz (transmissions tr)) (dz b) (dz smax) (dz tries);
        (match List.filter_map (fun l -> match words l with ["END"; n; d; a] -> Some (n, d, a) | _ -> None) lines with
         | [(_, d, a)] ->
-          if d <> "1" && not (List.mem "CLOCKRANGE" lines) then fail k "no-completion" "query did not complete (callbacks=%d)" !ncb;
-          if a <> "0" && not (List.mem "CLOCKRANGE" lines) then fail k "no-completion" "%s queries still active at the end" a
+          if d <> "1" && not (List.mem "CLOCKRANGE" lines) then fail k "query-never-terminates" "no callback before the tear-down although the retry budget was used up (callbacks=%d, ares_timeout()=NULL)" !ncb;
+          if a <> "0" && not (List.mem "CLOCKRANGE" lines) then fail k "query-never-terminates" "%s queries still active at the end" a
         | _ -> ());
        if !ncb > 1 then fail k "callback-count" "callback called %d times" !ncb;
        List.iter (fun s -> if Z.eqb s aRES_SUCCESS && not (Hashtbl.mem feats "reply-a" || Hashtbl.mem feats "reply-x" || Hashtbl.mem feats "reply-c" || Hashtbl.mem feats "reply-f"
